@@ -19,6 +19,7 @@ FLOATS = [0.0, 0.0, 0.5, 1.0, -2.5, 0.001, 3.14]
 STRS = ["", "", "mnist", "foo", "bar baz", "a_b", "~/data", "x", "None0"]
 BOOLS = [False, False, True]
 COMPLEX = [0j, 1j, 2.5 + 1j]
+RET_CODES = ["```np.empty(0)```", "```foo(3)```", "K", "(a, b)", "```(1, 2)```", "```0```", "```None```"]
 CODES = ["```np.empty(0)```", "```tf.zeros(3)```", "```(1, 2)```"]
 
 
@@ -103,8 +104,7 @@ def gen_ir(r, nparams=None, with_return=None, ret_default=None, with_doc=True, k
             rt["doc"] = r.choice(MORE_DOCS)
         rt["typ"] = typ
         if ret_default if ret_default is not None else r.random() < 0.5:
-            d = gen_default(r, typ, kind, bases, none_ok=False, p_falsy=p_falsy)
-            if d is not None:
-                rt["default"] = d
+            # the IR convention (all mocks): a return entry's default is the *source* of the returned expression
+            rt["default"] = r.choice(RET_CODES)
         ret = OrderedDict((("return_type", rt),))
     return {"name": name, "doc": r.choice(["", "Summary line.", "Summary line.\n\nLonger description here."]), "params": params, "returns": ret, "type": "static"}
